@@ -7,10 +7,11 @@ From TV Require Import Common.PySlice Common.PyList Common.Harness C05.Normalize
 Import ListNotations.
 Local Open Scope Z_scope.
 
-(* The whole law (all 9 clauses) holds at every step of every history on a TraitList. *)
+(* The whole law (all 9 clauses) holds at every step of every history on a TraitList in which no integer argument of
+   insert / pop / *= is an object with __index__ only ([xfree]; finding F26, refuted below without that hypothesis). *)
 Theorem law_holds_on_every_history :
   forall (vld : Z -> option Z) (ops : list op) (l : list Z) (i : Z),
-    law_hist vld i l (run (tl_step vld) l ops) = [].
+    xfree ops = true -> law_hist vld i l (run (tl_step vld) l ops) = [].
 Proof. exact run_law. Qed.
 Print Assumptions law_holds_on_every_history.
 
@@ -18,7 +19,7 @@ Print Assumptions law_holds_on_every_history.
    refused with TraitError, leaving the list alone and notifying nobody. *)
 Theorem law_holds_on_every_history_of_a_list_trait :
   forall (vld : Z -> option Z) (minlen : Z) (maxlen : option Z) (ops : list op) (l : list Z) (i : Z),
-    law_hist_tlo vld i l (run (tlo_step vld minlen maxlen) l ops) = [].
+    xfree ops = true -> law_hist_tlo vld i l (run (tlo_step vld minlen maxlen) l ops) = [].
 Proof. exact run_law_tlo. Qed.
 Print Assumptions law_holds_on_every_history_of_a_list_trait.
 
@@ -30,7 +31,7 @@ Proof. exact step_replay. Qed.
 Print Assumptions replay_law.
 
 Theorem refines_list :
-  forall (vld : Z -> option Z) (l : list Z) (o : op),
+  forall (vld : Z -> option Z) (l : list Z) (o : op), xkey o = false ->
     let ob := tl_step vld l o in
     let sr := builtin vld l o in
     outcome_ok (o_out ob) sr = true /\
@@ -41,7 +42,7 @@ Print Assumptions refines_list.
 
 (* ... and over whole histories: the contents after every step are those of the built-in list *)
 Theorem refines_list_on_histories :
-  forall (vld : Z -> option Z) (ops : list op) (l : list Z),
+  forall (vld : Z -> option Z) (ops : list op) (l : list Z), xfree ops = true ->
     map (fun p => o_after (snd p)) (run (tl_step vld) l ops) = pylist_run vld l ops.
 Proof. exact run_refines_pylist. Qed.
 Print Assumptions refines_list_on_histories.
@@ -87,16 +88,60 @@ Print Assumptions noop_event_is_identity.
 
 (* single steps of a TraitListObject *)
 Theorem list_trait_step_obeys_or_refuses :
-  forall (vld : Z -> option Z) (minlen : Z) (maxlen : option Z) (l : list Z) (o : op),
+  forall (vld : Z -> option Z) (minlen : Z) (maxlen : option Z) (l : list Z) (o : op), xkey o = false ->
     law_step vld l o (tlo_step vld minlen maxlen l o) = [] \/ tlo_step vld minlen maxlen l o = raise TraitError l.
 Proof. exact tlo_step_law. Qed.
 Print Assumptions list_trait_step_obeys_or_refuses.
+
+(* F26 (known finding): insert / pop / *= compare their integer argument with < before delegating, so an object that
+   only implements __index__ -- which the built-in list accepts -- raises TypeError.  The unrestricted law is false of
+   the model that follows the code ... *)
+Theorem index_object_arguments_refuted :
+  law_step (vld_of VAll) [1] (InsertX 0 5) (tl_step (vld_of VAll) [1] (InsertX 0 5)) = [1; 2]
+  /\ law_step (vld_of VAll) [1; 2] (PopX 0) (tl_step (vld_of VAll) [1; 2] (PopX 0)) = [1; 2; 9]
+  /\ law_step (vld_of VAll) [1] (ImulX 2) (tl_step (vld_of VAll) [1] (ImulX 2)) = [1; 2].
+Proof. exact index_object_witness. Qed.
+Print Assumptions index_object_arguments_refuted.
+
+(* ... and nothing else can fail, and for those operations only the comparison with the built-in list
+   (outcome class 1, contents 2, returned value 9): they still leave the list untouched and notify nobody
+   (failing_op_untouched, one_event_per_change, replay_law hold of every operation) *)
+Theorem only_index_object_arguments_can_fail :
+  forall (vld : Z -> option Z) (l : list Z) (o : op) (c : Z),
+    In c (law_step vld l o (tl_step vld l o)) -> xkey o = true /\ (c = 1 \/ c = 2 \/ c = 9).
+Proof. exact law_codes_of_a_step. Qed.
+Print Assumptions only_index_object_arguments_can_fail.
+
+(* copies: copy.copy / copy.deepcopy / pickle of a TraitList: the same values (a pickle round trip creates new
+   objects: the same values up to identity, [vpart]) *)
+Theorem copy_keeps_contents :
+  forall (vld : Z -> option Z) (k : copykind) (l : list Z),
+    (forall x y, vld x = Some y -> vld y = Some y) -> Forall (fun y => exists x, vld x = Some y) l ->
+    exists l', tl_copy vld k l = Ok l' /\ map vpart l' = map vpart l /\ (k <> CopyPickle -> l' = l).
+Proof. exact tl_copy_keeps_contents. Qed.
+Print Assumptions copy_keeps_contents.
+
+Theorem law_holds_on_every_history_of_a_copy :
+  forall (vld : Z -> option Z) (k : copykind) (l l' : list Z),
+    tl_copy vld k l = Ok l' -> forall ops i, xfree ops = true -> law_hist vld i l' (run (tl_step vld) l' ops) = [].
+Proof. exact law_on_a_copy. Qed.
+Print Assumptions law_holds_on_every_history_of_a_copy.
 
 (* the arithmetic core, about the definition translated from the source (T1) *)
 Theorem normalize_spec :
   forall len sl, 0 <= len -> slice_step sl <> 0 -> norm_spec len sl.
 Proof. exact normalize_gen_spec. Qed.
 Print Assumptions normalize_spec.
+
+(* Identity: two distinct objects that are equal and of the same type (atoms 1301, 2301: two floats 1.0) are two items;
+   reversing [a; b] changes the list, is notified, and the event replays *)
+Example reverse_of_equal_but_distinct_objects :
+  let l := [1301; 2301] in
+  let ob := tl_step (vld_of VAll) l Reverse in
+  py_eq 1301 2301 = true /\ o_after ob = [2301; 1301] /\ o_events ob = [(I 0, [1301; 2301], [2301; 1301])]
+  /\ replay l (I 0, [1301; 2301], [2301; 1301]) = Some (o_after ob)
+  /\ o_events (tl_step (vld_of VAll) l (Remove 1)) = [(I 0, [1301], [])].
+Proof. vm_compute. repeat split; reflexivity. Qed.
 
 (* Non-vacuity: a history with a converting validator in which extended and reversed
    slices are assigned and deleted, an operation fails, and a no-op event is emitted. *)
